@@ -213,6 +213,9 @@ class BinaryCarver(BaseCarver):
         dict[str, float]
             Cramér's V and Tschuprow's as a dict.
         """
+        # removing modalities and classes without observations (no expected frequency for them)
+        xtab = xtab.loc[xtab.sum(axis=1) > 0, xtab.sum(axis=0) > 0]
+
         # number of values taken by the features
         n_mod_x = xtab.shape[0]
 
